@@ -465,6 +465,18 @@ class Histories(Stream):
             sub = random.Random(rng.getrandbits(48))
             text, params, scopes = gen_master(sub)
             ops, valid = gen_history(sub, tier, params, scopes, maxlen)
+            if i % 35 == 7:
+                # a deep undo stack: k edit+push rounds (k up to 70: no bound on the number of outstanding pushes), then k pops
+                k = sub.choice([21, 25, 33, 40, 70])
+                ops, valid = [], True
+                for _ in range(k):
+                    ops.append(["update", gen_edit(sub, params), None, True])
+                    ops.append(["push"])
+                ops.append(["update", gen_edit(sub, params), None, True])
+                for j in range(k):
+                    ops.append(["pop"])
+                    if j % 7 == 0:
+                        ops.append(["get"])
             yield {"m": text, "P": params, "S": scopes, "ops": ops, "v": valid}
 
     # ---- implementation
@@ -668,6 +680,8 @@ class Histories(Stream):
 
     # ---- model
     def requests(self, case, impl_obs):
+        if not isinstance(impl_obs, dict):
+            return []             # the history itself raised something unexpected / timed out: judged by prop
         if impl_obs["init"][0] == "bad-master":
             return []
         aux = self._aux.pop(self.key(case, None), None)
@@ -735,6 +749,8 @@ class Histories(Stream):
         return None
 
     def prop(self, case, o):
+        if not isinstance(o, dict):
+            return "the history did not complete: %r" % (o,)
         d = self.prop_detail(case, o)
         return None if d is None else d[2]
 
